@@ -2,7 +2,8 @@
 From Coq Require Import String ZArith List Bool Arith.
 From NSL Require Import Base.Types Base.Syntax Model.PyNum Model.IR Model.VM Model.PyTree Model.Elab Model.Lower Spec.RefSem Harness.RunLib Proofs.HistoryProofs Proofs.CallProofs
      Proofs.OpsAgree Proofs.LowerExprProofs Proofs.ElabExprProofs Proofs.ReturnExprProofs Proofs.CallAgreeProofs Proofs.LowerStmtProofs Proofs.ElabStmtProofs
-     Proofs.StraightLineProofs Proofs.StraightLineExample Proofs.HistoryRefineProofs Proofs.HistoryExample.
+     Proofs.StraightLineProofs Proofs.StraightLineExample Proofs.HistoryRefineProofs Proofs.HistoryExample
+     Proofs.FlowSimProofs Proofs.FlowSimExample Proofs.HistoryFlowProofs Proofs.HistoryFlowExample.
 From NSLDyn Require Gen_VM Agree_VM Gen_Shapes.
 Import ListNotations.
 
@@ -41,7 +42,7 @@ Proof. exact other_vm_untouched. Qed.
     to the results rs and the globals g', the VM model, for every sufficient fuel, runs the same history to exactly those
     results and to a state whose globals agree with g' again -- so each invocation saw the globals its predecessors left,
     started with fresh locals, and changed globals only through its assignments.  (SetGlobal / GetGlobal of the host are
-    the agreement relation [GA] itself.)  Missing for the full statement: functions with control flow, calls, aggregates. *)
+    the agreement relation [GA] itself.)  Conditionals: the next theorem.  Missing for the full statement: loops, calls, aggregates. *)
 Theorem C15_history_refinement_partial : forall (M : module) (P : program) (calls : list hcall),
   (forall c, In c calls -> fn_ok M P (fst c) /\ Forall2 (fun p w => has_ty w (fst p)) (f_args (fst c)) (snd c)) ->
   forall fuel g vs rs g', GA M g vs -> ref_hist M fuel g calls = ROk (rs, g') ->
@@ -57,6 +58,25 @@ Example C15_history_example :
     exists vl vs', vm_hist fuel' hx_P hx_vs hx_calls = Some (vl, vs') /\ Forall2 (fun s v => exists w, s = SV w /\ v = v_of w) rs vl /\ GA sl_M g' vs'.
 Proof. exact hx_history. Qed.
 
+(** the same for functions WITH CONDITIONALS (the fragment of C01_conditional_functions_partial: declarations, plain and compound
+    assignments, blocks and nested if / if-else statements, a return): [fn_ok_flow] collects the static hypotheses,
+    [fn_hist_flow_ok_b] decides them and is evaluated by the check on generated programs *)
+Theorem C15_history_refinement_conditionals_partial : forall (M : module) (P : program) (calls : list hcall),
+  (forall c, In c calls -> fn_ok_flow M P (fst c) /\ Forall2 (fun p w => has_ty w (fst p)) (f_args (fst c)) (snd c)) ->
+  forall fuel g vs rs g', GA M g vs -> ref_hist M fuel g calls = ROk (rs, g') ->
+  exists n, forall fuel', n <= fuel' ->
+    exists vl vs', vm_hist fuel' P vs calls = Some (vl, vs') /\ Forall2 (fun s v => exists w, s = SV w /\ v = v_of w) rs vl /\ GA M g' vs'.
+Proof. exact history_refines_flow. Qed.
+
+(** non-vacuity: the function of C01's conditional instance called three times (the calls take different branches) from g = 1:
+    the theorem applies, and evaluation gives g = 0 on both sides *)
+Example C15_history_conditionals_example :
+  (exists rs g', ref_hist fs_M 16 hf_g hf_calls = ROk (rs, g') /\
+   exists n, forall fuel', n <= fuel' ->
+     exists vl vs', vm_hist fuel' hf_P hf_vs hf_calls = Some (vl, vs') /\ Forall2 (fun s v => exists w, s = SV w /\ v = v_of w) rs vl /\ GA fs_M g' vs') /\
+  (match vm_hist 100 hf_P hf_vs hf_calls with Some (_, vs') => Some (globals vs') | None => None end) = Some [("g"%string, VInt 0)].
+Proof. exact (conj hf_history (proj2 hf_values)). Qed.
+
 (** the interpreter arms that write the VM's global table in nsl/VM.py on this run: STORE only *)
 Theorem C15_global_writers :
   filter (fun p => existsb (String.eqb "self.__globalScope") (snd p)) Gen_VM.vm_arm_writes = [("STORE"%string, ["args"; "localScope"; "self.__globalScope"]%string)].
@@ -65,4 +85,5 @@ Proof. rewrite Agree_VM.agree_vm_writes. reflexivity. Qed.
 Eval compute in "ASSUMPTIONS C15_vm_isolation"%string. Print Assumptions C15_vm_isolation.
 Eval compute in "ASSUMPTIONS C15_globals_only_by_stores"%string. Print Assumptions C15_globals_only_by_stores.
 Eval compute in "ASSUMPTIONS C15_history_refinement_partial"%string. Print Assumptions C15_history_refinement_partial.
+Eval compute in "ASSUMPTIONS C15_history_refinement_conditionals_partial"%string. Print Assumptions C15_history_refinement_conditionals_partial.
 Eval compute in "END"%string.
